@@ -177,6 +177,7 @@ pub fn judge_case(c: &Case, budget: u64) -> Obs {
         return judge_terminal(spec, keys, *layout);
     }
     let mut obs = Obs::default();
+    let budget = budget + if let Case::Structured { spec, .. } = c { proggen::extra_budget(spec) } else { 0 };
     let p = match prepare(c) {
         Ok(p) => p,
         Err(why) => {
@@ -391,7 +392,7 @@ pub fn image_origin() -> impl Strategy<Value = u16> {
 
 fn cases() -> impl Strategy<Value = Case> {
     crate::pick![
-        5 => (proggen::prog_spec(40), input_bytes(), crate::gen::layout(), any::<bool>())
+        5 => (proggen::with_spin(proggen::prog_spec(40)), input_bytes(), crate::gen::layout(), any::<bool>())
             .prop_map(|(spec, input, layout, via_source)| Case::Structured { spec, input, layout, via_source }),
         4 => (image_origin(), image_words(), input_bytes(), any::<bool>()).prop_map(|(orig, mut words, input, stack)| {
             let room = 0x10000usize - orig as usize - 1;
